@@ -315,7 +315,7 @@ private:
     // return an operation that wraps all connections
     return operation<unifex::remove_cvref_t<Receiver>, Sender>{
         static_cast<Receiver&&>(receiver),
-        std::move((static_cast<Sender2&&>(sender)).senders_)};
+        std::vector<Sender>((static_cast<Sender2&&>(sender)).senders_)};
   }
 
   // Combine the blocking-nature of each of the child operations.
